@@ -56,9 +56,15 @@ type Contract struct {
 	Alias     string // name usable in specifications for a pure extern
 	Aliases   map[string]int // alias name -> result index
 	Conforms  string // copy the clauses of this (function type) contract
+	Hints     []HintClause // intermediate assertions placed after a source statement
 	Sets      []SetClause // ghost updates performed at return (assumed by callers, nothing to prove in the body)
 	NoPanic   bool
 	conformed bool
+}
+
+type HintClause struct {
+	Where string // substring of the source line
+	C     Clause
 }
 
 type SetClause struct {
@@ -111,7 +117,7 @@ var clauseKeywords = map[string]bool{
 	"func": true, "extern": true, "spec": true, "ghost": true, "lemma": true, "axiom": true,
 	"requires": true, "ensures": true, "assigns": true, "loop": true, "props": true,
 	"trusted": true, "pure": true, "maypanic": true, "replay": true, "strings": true,
-	"fresh": true, "nohavoc": true, "decreases": true, "induct": true, "calls": true, "alias": true, "conforms": true, "sets": true,
+	"fresh": true, "nohavoc": true, "decreases": true, "induct": true, "calls": true, "alias": true, "conforms": true, "sets": true, "at": true,
 }
 
 type rawLine struct {
@@ -345,6 +351,11 @@ func (sp *Specs) load(path string, prefixed bool, pkgPath string) error {
 				body = rest[i+3:]
 			}
 			var dec *Clause
+			opaque := false
+			if strings.HasSuffix(strings.TrimSpace(sig), " opaque") {
+				opaque = true
+				sig = strings.TrimSuffix(strings.TrimSpace(sig), " opaque")
+			}
 			if i := strings.Index(sig, " decreases "); i >= 0 {
 				c, err := mkClause(sig[i+len(" decreases "):])
 				if err != nil {
@@ -357,7 +368,7 @@ func (sp *Specs) load(path string, prefixed bool, pkgPath string) error {
 			if err != nil {
 				return fail(err)
 			}
-			sf := &SpecFun{Name: name, Params: params, Pkg: pkgPath, Decreases: dec, Rec: dec != nil}
+			sf := &SpecFun{Name: name, Params: params, Pkg: pkgPath, Decreases: dec, Rec: dec != nil || opaque}
 			if len(results) == 1 {
 				sf.Result = results[0].Type
 			} else {
@@ -549,6 +560,22 @@ func (sp *Specs) load(path string, prefixed bool, pkgPath string) error {
 			if cur != nil {
 				cur.Conforms = rest
 			}
+		case "at":
+			// at "source text" assert EXPR
+			if cur == nil {
+				return fail(fmt.Errorf("at outside func"))
+			}
+			q1 := strings.Index(rest, "\"")
+			q2 := strings.Index(rest[q1+1:], "\" assert ")
+			if q1 != 0 || q2 < 0 {
+				return fail(fmt.Errorf("expected: at \"source text\" assert EXPR"))
+			}
+			where := rest[1 : 1+q2]
+			c, err := mkClause(rest[1+q2+len("\" assert "):])
+			if err != nil {
+				return fail(err)
+			}
+			cur.Hints = append(cur.Hints, HintClause{Where: where, C: c})
 		case "sets":
 			if cur == nil {
 				return fail(fmt.Errorf("sets outside func"))
